@@ -294,11 +294,22 @@ func (x *g) genNestedViewTypes() {
 		{Name: "tiny", Attrs: []spec.ViewAttr{{Name: "ident"}}},
 		{Name: "extended", Attrs: []spec.ViewAttr{{Name: "ident"}, {Name: "title"}, {Name: "secret"}, {Name: "score"}}},
 	}
+	if x.chance(2, 3) {
+		// "title" is required by the type but left out by the tiny view: a client that validates a nested
+		// tiny rendering under another view refuses it
+		leaf.Def.Required = []string{"ident", "title"}
+		x.s.AddFeature("nested-view-required-outside-view")
+	}
 	x.s.Types = append(x.s.Types, leaf)
 	ref := func() *spec.Type { return &spec.Type{Kind: spec.Ref, Ref: leaf.Name} }
 	parent := &spec.UserType{Name: x.typeName("Parent"), Kind: "result", Def: &spec.Type{Kind: spec.Object}}
+	attrView := ""
+	if x.chance(2, 3) {
+		attrView = x.r.Pick("extended", "default", "extended", "tiny")
+		x.s.AddFeature("attribute-level-view")
+	}
 	parent.Def.Attrs = []*spec.Attr{
-		{Name: "primary", Type: ref()},
+		{Name: "primary", Type: ref(), View: attrView},
 		{Name: "secondary", Type: ref()},
 		{Name: "others", Type: &spec.Type{Kind: spec.Array, Elem: &spec.Attr{Type: ref()}}},
 		{Name: "label", Type: &spec.Type{Kind: spec.String}},
@@ -829,6 +840,25 @@ func (x *g) genResultType() *spec.UserType {
 				v.Attrs[i].View = views[x.r.Intn(len(views))].Name
 				x.s.AddFeature("nested-view-override")
 			}
+		}
+	}
+	// the attribute itself may name the view of its nested result type (in Attributes): the enclosing views'
+	// own overrides, where present, take precedence
+	for _, a := range ut.Def.Attrs {
+		t := a.Type
+		if t.Kind == spec.Array && t.Elem.Type.Kind == spec.Ref {
+			t = t.Elem.Type
+		}
+		if t.Kind != spec.Ref {
+			continue
+		}
+		rt := x.s.Type(t.Ref)
+		if rt == nil || rt.Kind != "result" || rt == ut || len(rt.Views) < 2 {
+			continue
+		}
+		if x.chance(1, 3) {
+			a.View = rt.Views[x.r.Intn(len(rt.Views))].Name
+			x.s.AddFeature("attribute-level-view")
 		}
 	}
 	// required attributes must be in every view? (not required by goa) - keep as is.
